@@ -420,6 +420,7 @@ var requests = []string{"/top", "/top?f=g", "/top?i=h", "/peek?f=g", "/flamegrap
 // directed histories next to the random ones: each runs sequentially and (several times) concurrently
 var directedWeb = [][]string{
 	{"/top?f=(", "/top?i=(", "/top?h=(", "/top?s=(", "/top?f=("},
+	{"/flamegraph?si=s1", "/flamegraph", "/flamegraph?si=s1", "/flamegraph?g=lines", "/flamegraph?h=f", "/flamegraph?si=s1"},
 	{"/top?i=zznomatch", "/top?f=zznomatchb", "/top?h=zznomatchc", "/top", "/flamegraph?i=zznomatchd", "/top?f=g"},
 }
 
